@@ -48,7 +48,7 @@ for _p in ("C01", "C02", "C08", "C09"):
 for _p in ("C09", "C04", "C06", "C01"):
     PROPS[_p]["modules"] += ["IclModel.Props.C09Validate"]
 # the state census: no package-level variable, no member of a stateful type beyond what the models keep
-for _p in ("C11", "C12", "C13", "C14", "C17", "C20", "C05", "C16", "C19", "C06", "C07", "C08", "C15", "C01"):
+for _p in ("C11", "C12", "C13", "C14", "C17", "C20", "C05", "C16", "C19", "C06", "C07", "C08", "C15", "C01", "C02", "C03", "C04", "C09", "C10", "C18"):
     PROPS[_p]["modules"] += ["IclModel.Props.StateCensus"]
 # Reader.parseLine and its handlers translated from reader.go = the step of the reader model
 for _p in ("C04", "C18", "C03", "C05"):
